@@ -1,11 +1,989 @@
-//! C15 -- not built yet (stub so the crate layout is stable).
-use crate::engine::report::{Ctx, Report};
-use serde_json::Value;
+//! C15 -- compiled automata accept exactly the language of the expression that built them.
+//!
+//! Every combinator program of a bounded grammar is built through the public `NFA` API and
+//! compiled; language equality with the regular expression it denotes is then *decided* (for
+//! all strings, not up to a length) by exploring the product of the real DFA with the
+//! Brzozowski derivatives of the expression (`model::regex`) to its fixpoint over all 256
+//! bytes. In every reachable product pair: accepting flag == nullable, a dead transition
+//! only where the derivative's language is empty, `is_terminal` only where no byte has a
+//! non-empty derivative, and (tagged choices) tags == alternatives whose own derivative is
+//! nullable. The production grammars of `decoder.rs` are transcribed into the same program
+//! type and go through the same decision twice: built by this harness through the public
+//! API, and as the automata the decoders really use (`decoder::verif::{event,command}_dfa`).
+use crate::engine::catch;
+use crate::engine::report::{Ctx, Report, Samples, Tier, Violations};
+use crate::engine::util::{hash64, hex, unhex};
+use crate::model::regex::{byte_classes, Ast, ByteSet, Enumerator, Grammar, Re};
+use rayon::prelude::*;
+use serde_json::{json, Value};
+use std::collections::{BTreeSet, HashMap, HashSet};
+use std::sync::atomic::{AtomicU64, Ordering};
+use std::sync::Mutex;
+use surf_n_term::automata::{DFAState, DFA, NFA};
+use surf_n_term::decoder::verif::{command_dfa, event_dfa, DfaView};
 
-pub fn run(_ctx: &Ctx) -> Result<Report, String> {
-    Err("C15: check not built yet".into())
+/// tags given to the alternatives of a tagged choice are `TAG_BASE + index` after `tags_map`
+const TAG_BASE: usize = 100;
+const PRODUCT_CAP: usize = 400_000;
+
+// ---------------------------------------------------------------------------------------
+// building real automata
+// ---------------------------------------------------------------------------------------
+
+fn build(ast: &Ast) -> NFA<u8> {
+    match ast {
+        Ast::Lit(bytes) => NFA::from(std::str::from_utf8(bytes).expect("ascii literal")),
+        Ast::Pred(set) => {
+            let set = *set;
+            NFA::predicate(move |b| set.contains(b))
+        }
+        Ast::Empty => NFA::empty(),
+        Ast::Nothing => NFA::nothing(),
+        Ast::Seq(v) => NFA::sequence(v.iter().map(build)),
+        Ast::Choice(v) => NFA::choice(v.iter().map(build)),
+        Ast::Opt(a) => build(a).optional(),
+        Ast::Some(a) => build(a).some(),
+        Ast::Many(a) => build(a).many(),
+    }
 }
 
-pub fn replay(_w: &Value) -> Result<(bool, String), String> {
-    Err("C15: check not built yet".into())
+/// `choice([alt_i.tag_stop_state(i)]).tags_map(|t| TAG_BASE + t)`
+fn build_tagged(alts: &[Ast]) -> NFA<usize> {
+    NFA::choice(alts.iter().enumerate().map(|(i, a)| build(a).tag_stop_state(i as u8)))
+        .tags_map(|t: u8| TAG_BASE + t as usize)
+}
+
+/// Uniform view of an automaton under test.
+trait Automaton {
+    fn size(&self) -> usize;
+    fn start(&self) -> usize;
+    fn step(&self, state: usize, byte: u8) -> Option<usize>;
+    /// (is_accepting, is_terminal, tags)
+    fn info(&self, state: usize) -> (bool, bool, BTreeSet<usize>);
+}
+
+struct LibDfa<T>(DFA<T>);
+
+impl<T: Clone + Ord + Into<usize>> Automaton for LibDfa<T> {
+    fn size(&self) -> usize {
+        self.0.size()
+    }
+    fn start(&self) -> usize {
+        self.0.start().verif_index()
+    }
+    fn step(&self, state: usize, byte: u8) -> Option<usize> {
+        self.0.transition(DFAState::verif_from_index(state), byte).map(|s| s.verif_index())
+    }
+    fn info(&self, state: usize) -> (bool, bool, BTreeSet<usize>) {
+        let i = self.0.info(DFAState::verif_from_index(state));
+        (i.is_accepting, i.is_terminal, i.tags.iter().map(|t| t.clone().into()).collect())
+    }
+}
+
+/// Production automata: tag labels are `Matcher(k)` (k-th matcher) or `Item(event)` (events of
+/// the basic-events matcher, which is matcher 0 of the event automata).
+struct ProdDfa(DfaView);
+
+impl Automaton for ProdDfa {
+    fn size(&self) -> usize {
+        self.0.size()
+    }
+    fn start(&self) -> usize {
+        self.0.start()
+    }
+    fn step(&self, state: usize, byte: u8) -> Option<usize> {
+        self.0.transition(state, byte)
+    }
+    fn info(&self, state: usize) -> (bool, bool, BTreeSet<usize>) {
+        let (a, t, labels) = self.0.info(state);
+        let tags = labels
+            .iter()
+            .map(|l| {
+                l.strip_prefix("Matcher(")
+                    .and_then(|r| r.strip_suffix(')'))
+                    .and_then(|n| n.parse::<usize>().ok())
+                    .unwrap_or(0)
+            })
+            .collect();
+        (a, t, tags)
+    }
+}
+
+// ---------------------------------------------------------------------------------------
+// the decision procedure
+// ---------------------------------------------------------------------------------------
+
+#[derive(Debug, Clone)]
+struct Mismatch {
+    kind: &'static str,
+    input: Vec<u8>,
+    detail: String,
+}
+
+#[derive(Debug, Default, Clone)]
+struct ProductStats {
+    pairs: u64,
+    transitions: u64,
+    dead_transitions: u64,
+    dfa_states_seen: u64,
+    classes: u64,
+    crosschecked_derivs: u64,
+}
+
+/// Shortest word of a non-empty language (bytes tried in class-representative order).
+fn shortest_word(r: &Re, reps: &[u8]) -> Option<Vec<u8>> {
+    let mut seen: HashSet<Re> = HashSet::new();
+    let mut queue: std::collections::VecDeque<(Re, Vec<u8>)> = Default::default();
+    seen.insert(r.clone());
+    queue.push_back((r.clone(), vec![]));
+    while let Some((cur, w)) = queue.pop_front() {
+        if cur.nullable() {
+            return Some(w);
+        }
+        for b in reps {
+            let d = cur.deriv(*b);
+            if !d.is_null() && seen.insert(d.clone()) {
+                let mut nw = w.clone();
+                nw.push(*b);
+                queue.push_back((d, nw));
+            }
+        }
+    }
+    None
+}
+
+/// Explore the product (automaton state x derivative vector) to its fixpoint.
+///
+/// `comps` are the expressions of the alternatives (one element for an untagged program);
+/// `tags[i]` is the tag expected for component i when `tagged`. `all_bytes_model` makes the
+/// model side compute a derivative for each of the 256 bytes instead of one per byte class
+/// and compares the two (cross-check of the class argument).
+fn product(
+    dfa: &dyn Automaton,
+    comps: &[Re],
+    tags: Option<&[usize]>,
+    all_bytes_model: bool,
+) -> Result<(ProductStats, Option<Mismatch>), String> {
+    let mut sets: Vec<ByteSet> = vec![];
+    comps.iter().for_each(|c| c.collect_sets(&mut sets));
+    sets.sort();
+    sets.dedup();
+    let (class_of, reps) = byte_classes(&sets);
+    let mut stats = ProductStats { classes: reps.len() as u64, ..Default::default() };
+
+    let size = dfa.size();
+    let mut index: HashMap<(usize, Vec<Re>), usize> = HashMap::new();
+    // (state, derivatives, parent, byte)
+    let mut nodes: Vec<(usize, Vec<Re>, usize, u8)> = vec![];
+    let mut dfa_seen: HashSet<usize> = HashSet::new();
+    let start = dfa.start();
+    if start >= size {
+        return Ok((stats, Some(Mismatch { kind: "bad-state", input: vec![], detail: format!("start state {start} >= size {size}") })));
+    }
+    index.insert((start, comps.to_vec()), 0);
+    nodes.push((start, comps.to_vec(), usize::MAX, 0));
+    let path = |nodes: &Vec<(usize, Vec<Re>, usize, u8)>, mut i: usize| -> Vec<u8> {
+        let mut out = vec![];
+        while nodes[i].2 != usize::MAX {
+            out.push(nodes[i].3);
+            i = nodes[i].2;
+        }
+        out.reverse();
+        out
+    };
+    let mut cur = 0;
+    while cur < nodes.len() {
+        let (state, ders) = (nodes[cur].0, nodes[cur].1.clone());
+        dfa_seen.insert(state);
+        let (accepting, terminal, got_tags) = dfa.info(state);
+        let nullable: Vec<bool> = ders.iter().map(|d| d.nullable()).collect();
+        let expect_accept = nullable.iter().any(|n| *n);
+        if accepting != expect_accept {
+            let kind = if accepting { "accepts-extra" } else { "rejects-valid" };
+            let detail = format!(
+                "automaton is_accepting={accepting}, expression {} the string (residual {})",
+                if expect_accept { "matches" } else { "does not match" },
+                show_ders(&ders)
+            );
+            return Ok((stats, Some(Mismatch { kind, input: path(&nodes, cur), detail })));
+        }
+        if let Some(tags) = tags {
+            let expect: BTreeSet<usize> = (0..ders.len()).filter(|i| nullable[*i]).map(|i| tags[i]).collect();
+            if expect != got_tags {
+                let detail = format!("tags reported {:?}, alternatives matching the string have tags {:?}", got_tags, expect);
+                return Ok((stats, Some(Mismatch { kind: "tags-mismatch", input: path(&nodes, cur), detail })));
+            }
+        }
+        // model successors per class
+        let class_ders: Vec<Vec<Re>> = reps.iter().map(|b| ders.iter().map(|d| d.deriv(*b)).collect()).collect();
+        if terminal {
+            if let Some(ci) = class_ders.iter().position(|v| v.iter().any(|d| !d.is_null())) {
+                let detail = format!(
+                    "state reported terminal but byte 0x{:02x} extends the match (residual {})",
+                    reps[ci],
+                    show_ders(&class_ders[ci])
+                );
+                return Ok((stats, Some(Mismatch { kind: "terminal-but-extendable", input: path(&nodes, cur), detail })));
+            }
+        }
+        for byte in 0..=255u8 {
+            let succ = &class_ders[class_of[byte as usize] as usize];
+            if all_bytes_model {
+                let direct: Vec<Re> = ders.iter().map(|d| d.deriv(byte)).collect();
+                stats.crosschecked_derivs += 1;
+                if &direct != succ {
+                    return Err(format!("byte-class argument broken: byte {byte:#x} derivative differs from its class representative"));
+                }
+            }
+            stats.transitions += 1;
+            match dfa.step(state, byte) {
+                None => {
+                    stats.dead_transitions += 1;
+                    if let Some(d) = succ.iter().find(|d| !d.is_null()) {
+                        let mut input = path(&nodes, cur);
+                        input.push(byte);
+                        let tail = shortest_word(d, &reps).ok_or("non-null derivative without a word")?;
+                        let detail = format!(
+                            "transition on 0x{byte:02x} is dead after {:?} but the expression still matches (residual {}); completed to a matching string",
+                            crate::engine::util::esc(&input[..input.len() - 1]),
+                            d
+                        );
+                        input.extend(tail);
+                        return Ok((stats, Some(Mismatch { kind: "dead-but-matchable", input, detail })));
+                    }
+                }
+                Some(next) => {
+                    if next >= size {
+                        let mut input = path(&nodes, cur);
+                        input.push(byte);
+                        return Ok((stats, Some(Mismatch { kind: "bad-state", input, detail: format!("transition returned state {next} >= size {size}") })));
+                    }
+                    let key = (next, succ.clone());
+                    if !index.contains_key(&key) {
+                        if nodes.len() >= PRODUCT_CAP {
+                            return Err(format!("product larger than {PRODUCT_CAP} pairs"));
+                        }
+                        index.insert(key, nodes.len());
+                        nodes.push((next, succ.clone(), cur, byte));
+                    }
+                }
+            }
+        }
+        cur += 1;
+    }
+    stats.pairs = nodes.len() as u64;
+    stats.dfa_states_seen = dfa_seen.len() as u64;
+    Ok((stats, None))
+}
+
+fn clip(s: &str) -> String {
+    if s.chars().count() > 300 {
+        format!("{}...", s.chars().take(300).collect::<String>())
+    } else {
+        s.to_string()
+    }
+}
+
+fn show_ders(d: &[Re]) -> String {
+    if d.len() == 1 {
+        d[0].to_string()
+    } else {
+        format!("[{}]", d.iter().map(|r| r.to_string()).collect::<Vec<_>>().join(", "))
+    }
+}
+
+// ---------------------------------------------------------------------------------------
+// programs
+// ---------------------------------------------------------------------------------------
+
+#[derive(Clone, Debug)]
+enum Program {
+    /// whole program, untagged
+    Plain(Ast),
+    /// tagged choice of the alternatives
+    Tagged(Vec<Ast>),
+    /// automata used by the production decoders
+    Production(&'static str),
+}
+
+impl Program {
+    fn json(&self) -> Value {
+        match self {
+            Program::Plain(a) => json!({"ast": a.to_json(), "show": a.to_string()}),
+            Program::Tagged(v) => {
+                let a = Ast::Choice(v.clone());
+                json!({"ast": a.to_json(), "tagged": true, "show": format!("tagged {}", a)})
+            }
+            Program::Production(n) => json!({"production": n}),
+        }
+    }
+    fn from_json(v: &Value) -> Result<Program, String> {
+        if let Some(n) = v.get("production").and_then(|x| x.as_str()) {
+            return match n {
+                "event" => Ok(Program::Production("event")),
+                "command" => Ok(Program::Production("command")),
+                _ => Err("unknown production automata".into()),
+            };
+        }
+        let ast = Ast::from_json(v.get("ast").ok_or("witness without ast")?)?;
+        if v.get("tagged").and_then(|x| x.as_bool()).unwrap_or(false) {
+            match ast {
+                Ast::Choice(alts) => Ok(Program::Tagged(alts)),
+                _ => Err("tagged program must be a choice".into()),
+            }
+        } else {
+            Ok(Program::Plain(ast))
+        }
+    }
+    fn show(&self) -> String {
+        match self {
+            Program::Plain(a) => a.to_string(),
+            Program::Tagged(v) => format!("tagged {}", Ast::Choice(v.clone())),
+            Program::Production(n) => format!("production {n} automata"),
+        }
+    }
+    fn profile(&self) -> String {
+        match self {
+            Program::Plain(a) => a.op_profile(),
+            Program::Tagged(v) => Ast::Choice(v.clone()).op_profile(),
+            Program::Production(n) => format!("production-{n}"),
+        }
+    }
+    /// component programs and expected tags
+    fn components(&self) -> (Vec<Ast>, Option<Vec<usize>>) {
+        match self {
+            Program::Plain(a) => (vec![a.clone()], None),
+            Program::Tagged(v) => (v.clone(), Some((0..v.len()).map(|i| TAG_BASE + i).collect())),
+            Program::Production(n) => {
+                let v = if *n == "event" { event_grammars() } else { command_grammars() };
+                let tags = (0..v.len()).collect();
+                (v.into_iter().map(|(_, a)| a).collect(), Some(tags))
+            }
+        }
+    }
+    fn with_automaton<R>(&self, f: impl FnOnce(&dyn Automaton) -> R) -> R {
+        match self {
+            Program::Plain(a) => f(&LibDfa(build(a).compile())),
+            Program::Tagged(v) => f(&LibDfa(build_tagged(v).compile())),
+            Program::Production(n) => f(&ProdDfa(if *n == "event" { event_dfa() } else { command_dfa() })),
+        }
+    }
+}
+
+// ---------------------------------------------------------------------------------------
+// production grammars, transcribed from src/decoder.rs (builder calls kept one to one,
+// `a + b` is `sequence([a, b])`, `a | b` is `choice([a, b])`)
+// ---------------------------------------------------------------------------------------
+
+fn digit() -> Ast {
+    Ast::pred(|b| b.is_ascii_digit())
+}
+fn number() -> Ast {
+    digit().some()
+}
+fn add(a: Ast, b: Ast) -> Ast {
+    Ast::seq([a, b])
+}
+
+fn basic_events() -> Ast {
+    let mut lits: Vec<String> = vec!["\x1b".into(), "\x7f".into(), "\x00".into()];
+    for byte in (0..=255u8).filter(|c| c.is_ascii_lowercase()) {
+        lits.push(format!("\x1b{}", byte as char));
+        lits.push(((byte & 0x1f) as char).to_string());
+    }
+    for byte in (0..=255u8).filter(|c| c.is_ascii_uppercase()) {
+        lits.push(format!("\x1b{}", byte as char));
+    }
+    for byte in (0..=255u8).filter(|c| c.is_ascii_punctuation()) {
+        lits.push(format!("\x1b{}", byte as char));
+    }
+    for byte in (0..=255u8).filter(|c| c.is_ascii_digit()) {
+        lits.push(format!("\x1b{}", byte as char));
+    }
+    for code in ["1", "2", "3", "4", "5", "6", "7", "8", "11", "12", "13", "14", "15", "17", "18", "19", "20", "21", "23", "24"] {
+        lits.push(format!("\x1b[{code}~"));
+        for mode in 1..8 {
+            lits.push(format!("\x1b[{code};{}~", mode + 1));
+        }
+    }
+    for (code_empty, code) in [
+        ("[", "A"), ("[", "B"), ("[", "C"), ("[", "D"), ("[", "F"), ("[", "H"), ("O", "P"), ("[", "P"),
+        ("O", "Q"), ("[", "Q"), ("O", "R"), ("[", "R"), ("O", "S"), ("[", "S"),
+    ] {
+        lits.push(format!("\x1b{code_empty}{code}"));
+        for mode in 1..8 {
+            lits.push(format!("\x1b[1;{}{code}", mode + 1));
+        }
+    }
+    Ast::choice(lits.iter().map(|s| Ast::lit(s)))
+}
+
+fn utf8(one: Ast) -> Ast {
+    let two = Ast::pred(|b| b >> 5 == 0b110);
+    let three = Ast::pred(|b| b >> 4 == 0b1110);
+    let four = Ast::pred(|b| b >> 3 == 0b11110);
+    let tail = Ast::pred(|b| b >> 6 == 0b10);
+    Ast::choice([
+        one,
+        add(two, tail.clone()),
+        add(add(three, tail.clone()), tail.clone()),
+        add(add(add(four, tail.clone()), tail.clone()), tail),
+    ])
+}
+
+fn graphic_rendition() -> Ast {
+    let code = Ast::pred(|c| matches!(c, b'0'..=b'9' | b':')).many();
+    Ast::seq([Ast::lit("\x1b["), add(code, Ast::lit(";").opt()).some(), Ast::lit("m")])
+}
+
+fn event_grammars() -> Vec<(&'static str, Ast)> {
+    let cursor_position = Ast::seq([Ast::lit("\x1b["), number(), Ast::lit(";"), number(), Ast::lit("R")]);
+    let dec_mode = Ast::seq([Ast::lit("\x1b[?"), number(), Ast::lit(";"), number(), Ast::lit("$y")]);
+    let device_attrs = Ast::seq([Ast::lit("\x1b[?"), add(number(), Ast::lit(";").opt()).some(), Ast::lit("c")]);
+    let alnum = || Ast::pred(|b| b.is_ascii_alphanumeric());
+    let kv = Ast::seq([alnum().some(), Ast::lit("="), alnum().some()]);
+    let kitty_image = Ast::seq([
+        Ast::lit("\x1b_G"),
+        kv.clone(),
+        Ast::seq([Ast::lit(","), kv]).many(),
+        Ast::lit(";"),
+        Ast::pred(|b| b != 0x1b).many(),
+        Ast::lit("\x1b\\"),
+    ]);
+    let kitty_keyboard = Ast::seq([
+        Ast::lit("\x1b["),
+        Ast::choice([
+            add(Ast::lit("?"), digit().some()),
+            Ast::pred(|c| matches!(c, b';' | b':' | b'0'..=b'9')).many(),
+        ]),
+        Ast::lit("u"),
+    ]);
+    let mouse = Ast::seq([
+        Ast::lit("\x1b[<"),
+        number(),
+        Ast::lit(";"),
+        number(),
+        Ast::lit(";"),
+        number(),
+        Ast::pred(|b| b == b'm' || b == b'M'),
+    ]);
+    let os_control = Ast::seq([
+        Ast::lit("\x1b]"),
+        number(),
+        Ast::lit(";"),
+        Ast::pred(|c| c != 0x1b && c != 0x07).some(),
+        Ast::choice([Ast::lit("\x1b\\"), Ast::lit("\x07")]),
+    ]);
+    let report_setting = Ast::seq([
+        Ast::lit("\x1bP"),
+        Ast::choice([Ast::lit("0"), Ast::lit("1")]),
+        Ast::lit("$r"),
+        Ast::pred(|c| c != 0x1b).many(),
+        Ast::lit("\x1b\\"),
+    ]);
+    let hex1 = Ast::pred(|b| b.is_ascii_hexdigit());
+    let hex = add(hex1.clone(), hex1);
+    let key_value = Ast::seq([hex.clone().some(), Ast::lit("="), hex.clone().some()]);
+    let termcap = add(
+        Ast::choice([
+            Ast::seq([
+                Ast::lit("\x1bP1+r"),
+                Ast::seq([key_value.clone(), Ast::seq([Ast::lit(";"), key_value]).many()]).opt(),
+            ]),
+            Ast::seq([
+                Ast::lit("\x1bP0+r"),
+                Ast::seq([hex.clone().some(), Ast::seq([Ast::lit(";"), hex.some()]).many()]).opt(),
+            ]),
+        ]),
+        Ast::lit("\x1b\\"),
+    );
+    let size = Ast::seq([Ast::lit(";"), number(), Ast::lit(";"), number(), Ast::lit("t")]);
+    let term_size = Ast::seq([Ast::lit("\x1b[8"), size.clone(), Ast::lit("\x1b[4"), size]);
+    let bracketed_paste = Ast::seq([Ast::lit("\x1b[200~"), Ast::pred(|b| b != 0x1b).many(), Ast::lit("\x1b[201~")]);
+    vec![
+        ("BasicEvents", basic_events()),
+        ("CursorPosition", cursor_position),
+        ("DecMode", dec_mode),
+        ("DeviceAttrs", device_attrs),
+        ("GraphicRendition", graphic_rendition()),
+        ("KittyImage", kitty_image),
+        ("KittyKeyboard", kitty_keyboard),
+        ("MouseEvent", mouse),
+        ("OSControl", os_control),
+        ("ReportSetting", report_setting),
+        ("TermCap", termcap),
+        ("TermSize", term_size),
+        ("UTF8Printable", utf8(Ast::pred(|b| (b' '..=b'~').contains(&b)))),
+        ("BracketedPaste", bracketed_paste),
+    ]
+}
+
+fn command_grammars() -> Vec<(&'static str, Ast)> {
+    vec![
+        ("GraphicRendition", graphic_rendition()),
+        ("UTF8NotEscape", utf8(Ast::pred(|b| b >> 7 == 0 && b != 0x1b))),
+    ]
+}
+
+// ---------------------------------------------------------------------------------------
+// evaluation of one (program, input): shared by the explorer's witnesses and replay
+// ---------------------------------------------------------------------------------------
+
+struct Observation {
+    dead_at: Option<usize>,
+    accepting: bool,
+    terminal: bool,
+    tags: BTreeSet<usize>,
+}
+
+fn observe(p: &Program, input: &[u8]) -> Observation {
+    p.with_automaton(|dfa| {
+        let mut s = dfa.start();
+        for (i, b) in input.iter().enumerate() {
+            match dfa.step(s, *b) {
+                Some(n) => s = n,
+                None => return Observation { dead_at: Some(i), accepting: false, terminal: false, tags: BTreeSet::new() },
+            }
+        }
+        let (accepting, terminal, tags) = dfa.info(s);
+        Observation { dead_at: None, accepting, terminal, tags }
+    })
+}
+
+/// (violates, detail) -- expected values come from the position-set matcher and, as a second
+/// opinion, from derivatives.
+fn judge(p: &Program, input: &[u8]) -> Result<(bool, String), String> {
+    if input.len() > 127 {
+        return Err("witness input longer than 127 bytes".into());
+    }
+    let (comps, tags) = p.components();
+    let obs = catch(|| observe(p, input)).map_err(|pi| format!("PANIC {}", pi.message));
+    let obs = match obs {
+        Ok(o) => o,
+        Err(e) => return Ok((true, format!("program {}: building/compiling/stepping panicked: {e}", p.show()))),
+    };
+    let naive: Vec<bool> = comps.iter().map(|c| c.matches_naive(input)).collect();
+    let residual: Vec<Re> = comps
+        .iter()
+        .map(|c| input.iter().fold(c.to_re(), |r, b| r.deriv(*b)))
+        .collect();
+    let by_deriv: Vec<bool> = residual.iter().map(|r| r.nullable()).collect();
+    if naive != by_deriv {
+        return Err(format!("reference models disagree on {:?}: position-sets {:?}, derivatives {:?}", input, naive, by_deriv));
+    }
+    let expect_accept = naive.iter().any(|x| *x);
+    let extend_byte = (0..=255u8).find(|b| residual.iter().any(|r| !r.deriv(*b).is_null()));
+    let mut problems = vec![];
+    if obs.accepting != expect_accept {
+        problems.push(format!(
+            "expression {} the input, automaton {}",
+            if expect_accept { "MATCHES" } else { "does NOT match" },
+            match obs.dead_at {
+                Some(i) => format!("goes dead at byte {i}"),
+                None if obs.accepting => "ACCEPTS".to_string(),
+                None => "ends in a non-accepting state".to_string(),
+            }
+        ));
+    }
+    if obs.dead_at.is_none() {
+        if let Some(tags) = &tags {
+            let expect: BTreeSet<usize> = (0..comps.len()).filter(|i| naive[*i]).map(|i| tags[i]).collect();
+            if expect != obs.tags {
+                problems.push(format!("expected tags {:?} (alternatives matching the input), automaton reports {:?}", expect, obs.tags));
+            }
+        }
+        if obs.terminal {
+            if let Some(b) = extend_byte {
+                problems.push(format!("state reported terminal, but byte 0x{b:02x} can extend the match"));
+            }
+        }
+    }
+    let head = format!(
+        "program {} on input {:?} (hex {}): expected accept={} extendable={}; observed accept={} dead_at={:?} terminal={} tags={:?}",
+        p.show(),
+        crate::engine::util::esc(input),
+        hex(input),
+        expect_accept,
+        extend_byte.is_some(),
+        obs.accepting,
+        obs.dead_at,
+        obs.terminal,
+        obs.tags
+    );
+    if problems.is_empty() {
+        Ok((false, format!("{head}: automaton agrees with the expression")))
+    } else {
+        Ok((true, format!("{head}: {}", problems.join("; "))))
+    }
+}
+
+// ---------------------------------------------------------------------------------------
+// exploration
+// ---------------------------------------------------------------------------------------
+
+#[derive(Default)]
+struct Totals {
+    programs: AtomicU64,
+    pairs: AtomicU64,
+    transitions: AtomicU64,
+    dead: AtomicU64,
+    dfa_states: AtomicU64,
+    crosschecked_programs: AtomicU64,
+    crosschecked_derivs: AtomicU64,
+    max_pairs: AtomicU64,
+    nontrivial: AtomicU64,
+    looped: AtomicU64,
+}
+
+struct Explorer<'a> {
+    viol: &'a Violations,
+    totals: Totals,
+    languages: Mutex<HashSet<u64>>,
+    machinery: Mutex<Option<String>>,
+    picked: Mutex<Vec<(String, Value)>>,
+    seed: u64,
+}
+
+impl<'a> Explorer<'a> {
+    fn new(viol: &'a Violations, seed: u64) -> Self {
+        Self { viol, totals: Totals::default(), languages: Mutex::new(HashSet::new()), machinery: Mutex::new(None), picked: Mutex::new(vec![]), seed }
+    }
+
+    fn check(&self, space: &str, p: &Program, index: u64, crosscheck: bool) {
+        let t = &self.totals;
+        t.programs.fetch_add(1, Ordering::Relaxed);
+        let (comps, tags) = p.components();
+        let res: Vec<Re> = comps.iter().map(|c| c.to_re()).collect();
+        {
+            let whole = Re::alt(res.iter().cloned());
+            if !whole.is_null() && whole != Re::Eps {
+                t.nontrivial.fetch_add(1, Ordering::Relaxed);
+            }
+            if p.profile() != "plain" {
+                t.looped.fetch_add(1, Ordering::Relaxed);
+            }
+            if index % 8 == 0 || matches!(p, Program::Production(_)) {
+                self.languages.lock().unwrap().insert(hash64(&whole));
+            }
+        }
+        let out = catch(|| p.with_automaton(|dfa| product(dfa, &res, tags.as_deref(), crosscheck)));
+        // coarse keys: kind x tagged x origin (enumerated program / transcribed grammar / production automata)
+        let origin = match p {
+            Program::Production(n) => format!("production-{n}"),
+            _ if space.starts_with("grammar:") => "grammar".to_string(),
+            _ => "program".to_string(),
+        };
+        let key_prefix = |kind: &str| format!("{}:{}{}", kind, if tags.is_some() { "tagged:" } else { "" }, origin);
+        match out {
+            Err(pi) => {
+                self.viol.add(
+                    key_prefix(&pi.key()),
+                    format!("{}: building / compiling / stepping panicked: {} ({}:{})", p.show(), pi.message, pi.file, pi.line),
+                    json!({"program": p.json(), "input": "", "space": space}),
+                );
+            }
+            Ok(Err(e)) => {
+                let mut g = self.machinery.lock().unwrap();
+                if g.is_none() {
+                    *g = Some(format!("{}: {e}", p.show()));
+                }
+            }
+            Ok(Ok((st, mismatch))) => {
+                t.pairs.fetch_add(st.pairs, Ordering::Relaxed);
+                t.transitions.fetch_add(st.transitions, Ordering::Relaxed);
+                t.dead.fetch_add(st.dead_transitions, Ordering::Relaxed);
+                t.dfa_states.fetch_add(st.dfa_states_seen, Ordering::Relaxed);
+                t.max_pairs.fetch_max(st.pairs, Ordering::Relaxed);
+                if crosscheck {
+                    t.crosschecked_programs.fetch_add(1, Ordering::Relaxed);
+                    t.crosschecked_derivs.fetch_add(st.crosschecked_derivs, Ordering::Relaxed);
+                }
+                let pick = match space {
+                    "main" => [77u64, 4_242, 100_003].contains(&index.wrapping_sub(self.seed % 50)),
+                    "deep-ab" => [9_001u64, 150_001].contains(&index.wrapping_sub(self.seed % 50)),
+                    "edge-arities" => index == 1_234 + self.seed % 50,
+                    "grammar:TermCap" | "grammar:event-choice" | "production:event" | "production:command" => true,
+                    _ => false,
+                };
+                if pick {
+                    let tagged = matches!(p, Program::Tagged(_));
+                    self.picked.lock().unwrap().push((
+                        format!("{space}:{index:012}:{tagged}"),
+                        json!({"space": space, "program": clip(&p.show()), "regex": clip(&show_ders(&res)), "product_pairs": st.pairs,
+                           "dfa_states": st.dfa_states_seen, "byte_classes": st.classes, "transitions_executed": st.transitions}),
+                    ));
+                }
+                if let Some(m) = mismatch {
+                    self.viol.add(
+                        key_prefix(m.kind),
+                        format!("{} on input {:?}: {}", clip(&p.show()), crate::engine::util::esc(&m.input), clip(&m.detail)),
+                        json!({"program": p.json(), "input": hex(&m.input), "kind": m.kind, "space": space}),
+                    );
+                }
+            }
+        }
+    }
+
+    /// every program of the grammar with at most `max_nodes` nodes; choice-rooted programs are
+    /// additionally checked as tagged choices when `tagged`
+    fn space(&self, name: &str, grammar: Grammar, max_nodes: usize, tagged: bool, cross_every: u64) -> (u64, u64) {
+        let en = Enumerator::new(grammar, max_nodes.saturating_sub(1).max(1));
+        // work units: (nodes, Some(shape) | None, range)
+        let mut units: Vec<(usize, Option<crate::model::regex::Shape>, u64, u64, u64)> = vec![];
+        let mut base = 0u64;
+        for n in 1..=max_nodes {
+            if n < en.by_size.len() {
+                let len = en.by_size[n].len() as u64;
+                let mut s = 0;
+                while s < len {
+                    let e = (s + 2048).min(len);
+                    units.push((n, None, s, e, base + s));
+                    s = e;
+                }
+                base += len;
+            } else {
+                for shape in en.shapes(n) {
+                    let len = en.shape_count(&shape);
+                    let mut s = 0;
+                    while s < len {
+                        let e = (s + 2048).min(len);
+                        units.push((n, Some(shape.clone()), s, e, base + s));
+                        s = e;
+                    }
+                    base += len;
+                }
+            }
+        }
+        let tagged_count = AtomicU64::new(0);
+        units.par_iter().for_each(|(n, shape, s, e, gbase)| {
+            for i in *s..*e {
+                let ast = match shape {
+                    None => en.by_size[*n][i as usize].clone(),
+                    Some(sh) => en.build(sh, i),
+                };
+                let gi = gbase + (i - s);
+                let cross = cross_every > 0 && gi % cross_every == 0;
+                if tagged {
+                    if let Ast::Choice(alts) = &ast {
+                        if alts.len() >= 2 {
+                            tagged_count.fetch_add(1, Ordering::Relaxed);
+                            self.check(name, &Program::Tagged(alts.clone()), gi, cross);
+                        }
+                    }
+                }
+                self.check(name, &Program::Plain(ast), gi, cross);
+            }
+        });
+        (base, tagged_count.load(Ordering::Relaxed))
+    }
+}
+
+// ---------------------------------------------------------------------------------------
+// validation of the reference model
+// ---------------------------------------------------------------------------------------
+
+fn strings_upto(alphabet: &[u8], max_len: usize) -> Vec<Vec<u8>> {
+    let mut out = vec![vec![]];
+    let mut level = vec![vec![]];
+    for _ in 0..max_len {
+        let mut next = vec![];
+        for w in &level {
+            for b in alphabet {
+                let mut n: Vec<u8> = w.clone();
+                n.push(*b);
+                next.push(n);
+            }
+        }
+        out.extend(next.iter().cloned());
+        level = next;
+    }
+    out
+}
+
+/// derivative matcher == position-set matcher == CPython `re.fullmatch` on every program with
+/// up to `nodes` nodes and every string over {a,b,c} up to `len` bytes
+fn validate_reference(grammar: &Grammar, nodes: usize, len: usize) -> Result<(u64, u64), String> {
+    let en = Enumerator::new(grammar.clone(), nodes);
+    let progs: Vec<&Ast> = en.by_size.iter().flatten().collect();
+    let words = strings_upto(b"abc", len);
+    let table: Vec<Vec<bool>> = progs
+        .par_iter()
+        .map(|p| {
+            let re = p.to_re();
+            words.iter().map(|w| re.matches(w)).collect()
+        })
+        .collect();
+    let mut compared = 0u64;
+    for (p, row) in progs.iter().zip(&table) {
+        for (w, m) in words.iter().zip(row) {
+            if p.matches_naive(w) != *m {
+                return Err(format!("reference models disagree: {} on {:?}: derivatives {}, position sets {}", p, w, m, !m));
+            }
+            compared += 1;
+        }
+    }
+    // CPython
+    let mut script = String::from("import re,sys\nW=[");
+    for w in &words {
+        script.push_str(&format!("b'{}',", w.iter().map(|b| (*b as char).to_string()).collect::<String>()));
+    }
+    script.push_str("]\nP=[");
+    for p in &progs {
+        script.push_str(&format!("rb'{}',", p.to_python()));
+    }
+    script.push_str("]\nout=[]\nfor p in P:\n    c=re.compile(p)\n    out.append(''.join('1' if c.fullmatch(w) else '0' for w in W))\nsys.stdout.write('\\n'.join(out))\n");
+    let dir = std::env::var("SNT_TMP").unwrap_or_else(|_| "/tmp".into());
+    let _ = std::fs::create_dir_all(&dir);
+    let path = format!("{dir}/c15_ref_{}.py", std::process::id());
+    std::fs::write(&path, script).map_err(|e| e.to_string())?;
+    let out = std::process::Command::new("python3").arg(&path).output();
+    let _ = std::fs::remove_file(&path);
+    let out = match out {
+        Ok(o) => o,
+        Err(_) => return Ok((compared, 0)),
+    };
+    if !out.status.success() {
+        return Err(format!("python3 cross-check failed: {}", String::from_utf8_lossy(&out.stderr)));
+    }
+    let text = String::from_utf8_lossy(&out.stdout);
+    let mut py = 0u64;
+    let lines: Vec<&str> = text.lines().collect();
+    if lines.len() != progs.len() {
+        return Err(format!("python3 cross-check: {} lines for {} programs", lines.len(), progs.len()));
+    }
+    for ((p, row), line) in progs.iter().zip(&table).zip(lines) {
+        for ((w, m), c) in words.iter().zip(row).zip(line.bytes()) {
+            if (c == b'1') != *m {
+                return Err(format!("reference disagrees with CPython re: {} (/{}/) on {:?}: model {}, python {}", p, p.to_python(), w, m, c == b'1'));
+            }
+            py += 1;
+        }
+    }
+    Ok((compared, py))
+}
+
+fn main_grammar() -> Grammar {
+    Grammar {
+        atoms: vec![Ast::lit("a"), Ast::lit("b"), Ast::pred(|b| b == b'a' || b == b'b'), Ast::lit("ab"), Ast::Empty, Ast::Nothing],
+        edge_arities: false,
+    }
+}
+fn edge_grammar() -> Grammar {
+    let mut atoms = main_grammar().atoms;
+    atoms.push(Ast::pred(|b| b == 0x00 || b == 0xff));
+    Grammar { atoms, edge_arities: true }
+}
+fn deep_grammar() -> Grammar {
+    Grammar { atoms: vec![Ast::lit("a"), Ast::lit("b")], edge_arities: false }
+}
+
+pub fn run(ctx: &Ctx) -> Result<Report, String> {
+    let verbose = std::env::var_os("SNT_VERBOSE").is_some();
+    let only = std::env::var("SNT_C15_ONLY").ok();
+    let want = |name: &str| only.as_deref().map(|o| o.split(',').any(|x| x == name)).unwrap_or(true);
+    let lap = |what: &str| {
+        if verbose {
+            eprintln!("[c15] {:>8.2}s {what}", ctx.elapsed());
+        }
+    };
+    let (ref_cmp, ref_py) = validate_reference(&edge_grammar(), ctx.tier.pick(3, 4), 4)?;
+    lap("reference validated");
+
+    let viol = Violations::new();
+    let ex = Explorer::new(&viol, ctx.seed);
+
+    let main_nodes = ctx.tier.pick(6, 7);
+    let edge_nodes = ctx.tier.pick(4, 6);
+    let deep_nodes = ctx.tier.pick(7, 9);
+    // cross-check of the byte-class argument (model side on all 256 bytes): every program up to
+    // a size, every 16th beyond
+    let (main_count, main_tagged) = if want("main") { ex.space("main", main_grammar(), main_nodes, true, ctx.tier.pick(4, 64)) } else { (0, 0) };
+    lap("main space done");
+    let (edge_count, edge_tagged) = if want("edge") { ex.space("edge-arities", edge_grammar(), edge_nodes, true, 4) } else { (0, 0) };
+    lap("edge space done");
+    let (deep_count, deep_tagged) = if want("deep") { ex.space("deep-ab", deep_grammar(), deep_nodes, true, ctx.tier.pick(16, 256)) } else { (0, 0) };
+    lap("deep space done");
+
+    // production grammars built through the public API
+    let ev = event_grammars();
+    let cm = command_grammars();
+    let mut prod_programs = 0u64;
+    let mut list: Vec<(String, Program)> = vec![];
+    for (name, ast) in ev.iter().chain(cm.iter()) {
+        list.push((format!("grammar:{name}"), Program::Plain(ast.clone())));
+    }
+    list.push(("grammar:event-choice".into(), Program::Tagged(ev.iter().map(|(_, a)| a.clone()).collect())));
+    list.push(("grammar:command-choice".into(), Program::Tagged(cm.iter().map(|(_, a)| a.clone()).collect())));
+    list.push(("production:event".into(), Program::Production("event")));
+    list.push(("production:command".into(), Program::Production("command")));
+    if !want("production") {
+        list.clear();
+    }
+    list.par_iter().enumerate().for_each(|(i, (name, p))| {
+        ex.check(name, p, i as u64, true);
+        lap(name);
+    });
+    prod_programs += list.len() as u64;
+
+    if let Some(e) = ex.machinery.lock().unwrap().clone() {
+        return Err(format!("machinery: {e}"));
+    }
+
+    let t = &ex.totals;
+    let mut r = Report::new("model_checking");
+    r.set("states", t.pairs.load(Ordering::Relaxed))
+        .set("transitions", t.transitions.load(Ordering::Relaxed))
+        .set("traces_validated_against_impl", t.transitions.load(Ordering::Relaxed))
+        .set("programs", t.programs.load(Ordering::Relaxed))
+        .set("exhaustive", true)
+        .set("capped", false)
+        .set("fixpoint_reached_for_every_program", true)
+        .set(
+            "spaces",
+            json!({
+                "main": {"atoms": "\"a\", \"b\", [ab], \"ab\", empty, nothing", "ops": "sequence(2-3), choice(2-3), optional, some, many",
+                         "max_nodes": main_nodes, "programs": main_count, "tagged_choice_variants": main_tagged},
+                "edge-arities": {"atoms": "main atoms + [\\x00\\xff] + sequence([]) + choice([])", "ops": "main ops + sequence([x]) + choice([x])",
+                         "max_nodes": edge_nodes, "programs": edge_count, "tagged_choice_variants": edge_tagged},
+                "deep-ab": {"atoms": "\"a\", \"b\"", "ops": "main ops", "max_nodes": deep_nodes, "programs": deep_count, "tagged_choice_variants": deep_tagged},
+                "production": {"programs": prod_programs,
+                         "what": "14 event + 2 command grammars transcribed from decoder.rs, each alone, as tagged choices built through the public API, and the decoders' own automata (verif::event_dfa / command_dfa) against the same transcription"},
+            }),
+        )
+        .set("dead_transitions_checked", t.dead.load(Ordering::Relaxed))
+        .set("dfa_states_visited", t.dfa_states.load(Ordering::Relaxed))
+        .set("largest_product", t.max_pairs.load(Ordering::Relaxed))
+        .set("programs_with_nontrivial_language", t.nontrivial.load(Ordering::Relaxed))
+        .set("programs_with_optional_or_loop", t.looped.load(Ordering::Relaxed))
+        .set("distinct_canonical_languages_in_every_8th_program", ex.languages.lock().unwrap().len())
+        .set("byte_class_crosscheck_programs", t.crosschecked_programs.load(Ordering::Relaxed))
+        .set("byte_class_crosscheck_derivatives", t.crosschecked_derivs.load(Ordering::Relaxed))
+        .set(
+            "reference_validation",
+            format!(
+                "derivative matcher vs position-set matcher on {ref_cmp} (program,string) pairs, vs CPython re.fullmatch on {ref_py} pairs (programs <= {} nodes of the edge-arities grammar, strings over abc up to 4)",
+                ctx.tier.pick(3, 4)
+            ),
+        )
+        .set("samples", {
+            let mut v = ex.picked.lock().unwrap().clone();
+            v.sort_by(|a, b| a.0.cmp(&b.0));
+            v.into_iter().map(|(_, j)| j).collect::<Vec<Value>>()
+        })
+        .set("raw_violations", viol.raw_count());
+    r.assume("a combinator denotes what its doc comment says: sequence = concatenation (empty list = empty string), choice = union (empty list = nothing), optional = a?, some = a+, many = a*, predicate = one byte of the set, From<&str> = the literal");
+    r.assume("the real automaton is stepped on all 256 bytes in every product pair; the model's derivative is computed once per byte class (bytes no atom of the program distinguishes) - cross-checked against per-byte derivatives on the reported subset");
+    r.assume("Re::Null is the only canonical form with an empty language (smart constructors remove every empty operand)");
+    r.assume("production grammars are compared with a transcription of the builder calls in src/decoder.rs; BasicEvents tags are only checked as 'some Item tag'");
+    if ctx.tier == Tier::Thorough {
+        r.set("tier_note", "thorough: main <= 7 nodes, edge-arities <= 6, deep-ab <= 9; quick: 6 / 4 / 7");
+    }
+    r.violations = viol.into_vec();
+    Ok(r)
+}
+
+pub fn replay(w: &Value) -> Result<(bool, String), String> {
+    let p = Program::from_json(w.get("program").ok_or("witness without program")?)?;
+    let input = unhex(w.get("input").and_then(|x| x.as_str()).ok_or("witness without input")?);
+    judge(&p, &input)
 }
